@@ -224,7 +224,8 @@ class EndpointView:
         self.sframes_sent = 0
         self.polls_sent = 0
         self.finals_sent = 0
-        self.unsolicited_final = 0
+        self.unsolicited_final = 0  # frames sent with F=1 while no P=1 was waiting for an answer
+        self.unsolicited_final_s = 0  # ... of which S-frames
         self.pending_polls = 0  # P=1 frames delivered to this end and not yet answered with F=1
 
 
@@ -406,6 +407,8 @@ class ChannelMonitor:
                 me.pending_polls -= 1
             else:
                 me.unsolicited_final += 1
+                if c['type'] == 'S':
+                    me.unsolicited_final_s += 1
         if c['type'] == 'S':
             me.sframes_sent += 1
             if c['P']:
@@ -476,8 +479,7 @@ class ChannelMonitor:
         if len(sdu) > peer_mtu:
             self._v('wire_mtu', {'kind': 'sdu_exceeds_mtu'}, f'dev{dev} sent a {len(sdu)}-octet SDU, peer MTU is {peer_mtu}')
 
-    def finish(self):
-        """End-of-run checks on the wire view."""
-        for dev, me in enumerate(self.ep):
-            if me.sar_buf is not None:
-                self._v('ertm_sar_malformed', {'kind': 'sdu_never_ended'}, f'dev{dev}: the last SDU was started ({me.sar_buf[0]} octets) and never ended ({len(me.sar_buf[1])} sent)')
+    def unfinished_sdu(self, dev):
+        """(announced length, octets sent) of an SDU this end started and has not ended, or None."""
+        b = self.ep[dev].sar_buf
+        return None if b is None else (b[0], len(b[1]))
